@@ -20,7 +20,9 @@ Ops(p) == {a % p : a \in {0, 1, 2, (p - 1) \div 2, (p + 1) \div 2, p - 2, p - 1,
 
 ASSUME ThPrimes == /\ \A p \in LargePs \cup SmallPs : IsPrime(p)
                    /\ \A n \in 0..3000 : IsPrime(n) = (n > 1 /\ \A d \in 2..(n - 1) : n % d # 0)
-                   /\ \A n \in {65536, 65537, 46341 * 2, 65521 * 3} : IsPrime(n) = (n = 65537)
+                   /\ \A n \in {65536, 65537, 46341 * 2, 65521 * 3, 262143, 262144, 1048573, 46337 * 46337, 2147483647, 2147483646} :
+                        IsPrime(n) = (n \in {65537, 1048573, 2147483647})
+                   /\ \A n \in 65536..66100 : IsPrime(n) = (\A d \in 2..300 : n % d # 0)
                    /\ ~IsPrime(65535) /\ ~IsPrime(251 * 257)
                    /\ PrimesIn(0, 13) = <<2, 3, 5, 7, 11, 13>> /\ PrimesIn(24, 28) = <<>> /\ PrimesIn(65500, 65535) = <<65519, 65521>>
 ASSUME ThMulLarge == \A p \in LargePs : \A a, b \in Ops(p) :
